@@ -17,13 +17,15 @@ ENV_STUB = 'getenv() returns NULL (no SOXR_* overrides) unless the harness says 
 
 OPS = {0: 'push', 1: 'flush', 2: 'pull', 4: 'query'}
 
-def api_step(op, it, ot, kind, ch, cap=3):
-    return Obl(name='api_%s_i%d_o%d_k%d_ch%d' % (OPS[op], it, ot, kind, ch), src='api_step.c',
+def api_step(op, it, ot, kind, ch, cap=3, omp=0):
+    # omp=1: compiled with _OPENMP defined, so that the "#if defined _OPENMP" copies of the per-channel loops of soxr.c are the code
+    # under analysis (taken when num_threads == 0 and channels > 1); cbmc ignores the pragma: the region runs in program order
+    return Obl(name='api_%s_i%d_o%d_k%d_ch%d%s' % (OPS[op], it, ot, kind, ch, '_omp' if omp else ''), src='api_step.c',
                extra_srcs=['src/data-io.c', 'x87_glue.c'],
                defs=['-DVF_OP=%d' % op, '-DVF_ITYPE=%d' % it, '-DVF_OTYPE=%d' % ot, '-DVF_KIND=%d' % kind,
-                     '-DVF_CH=%d' % ch, '-DVF_CAP=%d' % cap, '-DAE_FIXED_BUFS=%d' % (cap + 1), '-DVF_DATAIO_MEMCPY', '-DVF_X87_ABSTRACT'] ,
+                     '-DVF_CH=%d' % ch, '-DVF_CAP=%d' % cap, '-DAE_FIXED_BUFS=%d' % (cap + 1), '-DVF_DATAIO_MEMCPY', '-DVF_X87_ABSTRACT'] + (['-D_OPENMP=201511'] if omp else []),
                ccflags=X87, unwind=cap + 2, unwindset=rint_blocks(1) + ['soxr_output.0:14', 'fixed_alloc.0:%d' % (cap * 16 + 2), 'check_canaries.0:%d' % (cap * 16 + 2), 'check_canaries.1:8', 'vf_word_memcpy.0:%d' % (cap * 2 + 2)], timeout=300,
-               desc='one %s call, itype %d otype %d (bit 2 = split), engine kind %d, %d channel(s)' % (OPS[op], it, ot, kind, ch),
+               desc='one %s call, itype %d otype %d (bit 2 = split), engine kind %d, %d channel(s)%s' % (OPS[op], it, ot, kind, ch, ', OpenMP build (per-channel loops of the _OPENMP copies, one schedule)' if omp else ''),
                bounds='frames<=%d per call, input-fn calls<=4, engine rounds<=6' % cap,
                stubs=[AE_STUB, X87_STUB, ENV_STUB],
                funcs=['soxr.c:soxr_process', 'soxr.c:soxr_output', 'soxr.c:soxr_input', 'soxr.c:soxr_output_no_callback'])
@@ -203,6 +205,19 @@ def vr_switch_obl(direction, timeout=600):
                funcs=['vr32.c:vr_process', 'vr32.c:do_input_stage', 'vr32.c:enter_new_stage', 'fifo.h:fifo_reserve', 'fifo.h:fifo_read', 'fifo.h:fifo_trim_by'])
 
 
+def vr_snap_obl(fading, timeout=600):
+    instr = []
+    for r in VR_SWITCH_REPL:
+        instr += ['--replace-calls', r]
+    return Obl(name='vr_slew_end_snap_%s' % ('during_fade' if fading else 'no_fade'), src='vr_step.c', defs=['-DVF_OP=6', '-DVF_FADING=%d' % fading], unwind=300, timeout=timeout,
+               ndebug=False, instrument=instr, extra=['--paths', 'lifo'], slice=False, checks='full',
+               desc='vr32.c vr_process: the call in which a slew ends (slew_len 0, target pending)%s: every live stream snaps to the target ratio in its own scale and stops slewing'
+                    % (' while a stage cross-fade is running' if fading else ''),
+               bounds='engine state constructed directly; steps and slew increments of both streams symbolic; target ratio in {.5, .75, .9375, .96875}; cbmc --paths lifo',
+               stubs=['goto-instrument --replace-calls: the four resampling kernels produce no frame in this call; half-band FIR dot products data only'],
+               funcs=['vr32.c:vr_process', 'vr32.c:set_step', 'vr32.c:enter_new_stage'])
+
+
 def vr_tables_obl(path, kf=None, timeout=600, astages=None):
     """C10: VR static coefficient tables vs a second instance's gain"""
     instr = []
@@ -247,10 +262,18 @@ def plan_obl(op, rdft_flags=None, kf=None, timeout=300):
 
 def kern_eq_obl(pair):
     names = {0: ('u100_0', 'vpoly0'), 1: ('u100_1', 'vpoly1'), 2: ('u100_2', 'vpoly2'), 3: ('U100_0', 'vpoly0')}[pair]
-    return Obl(name='kern_eq_%s_vs_%s' % names, src='kern_eq.c', defs=['-DVF_PAIR=%d' % pair], unwind=66, timeout=300,
+    return Obl(native_srcs=['native_weak.c'], name='kern_eq_%s_vs_%s' % names, src='kern_eq.c', defs=['-DVF_PAIR=%d' % pair], unwind=66, timeout=300,
                desc='fixed-length portable kernel %s vs the general kernel %s on the poly_firs[] row that names it: bit-identical outputs, consumption and clock' % names,
                bounds='CONCRETE probe states (8 clock fractions separating every PHASE_BITS value, index-revealing table, distinct sample weights): decided by symbolic execution (constant propagation) - no quantification; a symbolic table/clock exceeded 10 GB',
                stubs=['generated table vf_coefs[i] == i'], funcs=['cr-core.c:%s' % names[0], 'cr-core.c:%s' % names[1], 'cr-core.c:poly_firs'])
+
+
+def kern_poly_obl(k, engine='cr64.c', n=10, pb=6):
+    return Obl(native_srcs=['native_weak.c'], name='kern_poly_taps_%s_vpoly%d_n%d_pb%d' % (engine.replace('.c', ''), k, n, pb), src='kern_poly.c',
+               defs=['-DVF_K=%d' % k, '-DVF_N=%d' % n, '-DVF_PB=%d' % pb, '-DVF_ENGINE_C="%s"' % engine], unwind=max(n, 8) + 4, timeout=300,
+               desc='interpolated poly-phase kernel vpoly%d of %s: one-hot window per tap, index-revealing table: the output equals a + b x + c x^2 + d x^3 of the entries the table writer stores for (phase, tap, power)' % (k, engine),
+               bounds='CONCRETE probes (4 clock fractions x %d taps, exactly representable arithmetic): decided by symbolic execution (constant propagation) - no quantification' % n,
+               stubs=['generated table vf_coefs[i] == i'], funcs=['cr-core.c:vpoly%d' % k, 'poly-fir.h', 'cr.h:coef'])
 
 
 def init_qq_obl(timeout=600, may_fail=False, kf=None):
@@ -292,7 +315,7 @@ def fifo_obls():
 
 def kern_imp_obl(hn, engine='cr32.c'):
     defs = ['-DVF_HN=%d' % hn, '-DVF_ENGINE_C="%s"' % engine] + (['-DVF_SIMD_MODELS'] if engine.endswith('s.c') else [])
-    return Obl(name='kern_impulse_%s_h%d' % (engine.replace('.c', ''), hn), src='kern_imp.c', defs=defs, unwind=70, timeout=300, unwindset=['vf_harness.1:9'],
+    return Obl(native_srcs=['native_weak.c'], name='kern_impulse_%s_h%d' % (engine.replace('.c', ''), hn), src='kern_imp.c', defs=defs, unwind=70, timeout=300, unwindset=['vf_harness.1:9'],
                desc='half-band kernel h%d of %s on a one-hot input window at a symbolic position: the output is exactly the table coefficient the filter definition pairs with that sample' % (hn, engine),
                bounds='all %d window positions (symbolic); other samples +0.0 (partial sums exact)' % (4 * hn + 8),
                stubs=['SSE shuffles / scalar-lane ops modelled as exact lane operations'] if engine.endswith('s.c') else [],
